@@ -241,3 +241,72 @@ def random_op(a):
 
 
 HANDLERS.update({"iban.random": random_op, "bban.random": random_op})
+
+
+# ------------------------------------------------------------ value semantics
+def _make(o):
+    import copy as _copy
+    import pickle as _pickle
+    cls = o["cls"]
+    if cls == "IBAN":
+        x = IBAN(T(o["text"]), allow_invalid=True)
+    elif cls == "BIC":
+        x = BIC(T(o["text"]), allow_invalid=True)
+    elif cls == "BBAN":
+        x = BBAN(T(o["cc"]), T(o["text"]))
+    else:
+        x = T(o["text"])
+    origin = x
+    for v in o["via"]:
+        if v == "copy":
+            x = _copy.copy(x)
+        elif v == "deepcopy":
+            x = _copy.deepcopy(x)
+        else:
+            x = _pickle.loads(_pickle.dumps(x, protocol=int(v[6:])))
+    return x, origin
+
+
+def _comps(x):
+    try:
+        return _comps_raw(x)
+    except exc_mod.SchwiftyException as e:      # e.g. unknown country of an unvalidated object
+        return [C("!" + type(e).__name__)]
+
+
+def _comps_raw(x):
+    if isinstance(x, IBAN):
+        return [C(getattr(x, n)) for n in COMPONENTS] + [C(str(x.bban)), C(x.bban.country_code)]
+    if isinstance(x, BBAN):
+        return [C(getattr(x, n)) for n in COMPONENTS]
+    if isinstance(x, BIC):
+        return [C(x.bank_code), C(x.country_code), C(x.location_code), C(x.branch_code)]
+    return []
+
+
+def _describe(x, origin):
+    country = getattr(x, "country_code", "") if not type(x) is str else ""
+    return {"cls": type(x).__name__, "compact": C(str(x)), "country": C(country),
+            "eq_origin": bool(x == origin) and bool(origin == x), "comps": _comps(x), "origin_comps": _comps(origin)}
+
+
+def values_op(a):
+    x, xo = _make(a["a"])
+    y, yo = _make(a["b"])
+    kind = a["kind"]
+    if kind == "cmp":
+        return {"eq": bool(x == y), "ne": bool(x != y), "lt": bool(x < y), "le": bool(x <= y), "gt": bool(x > y),
+                "ge": bool(x >= y)}
+    if kind == "hash":
+        return {"same": hash(x) == hash(y)}
+    if kind == "dict":
+        d = {x: 1}
+        return {"found": y in d and d[y] == 1, "in_set": y in {x}}
+    if kind == "sort":
+        return {"sorted": [C(str(v)) for v in sorted([x, y, "ZZ"])]}
+    if kind == "props":
+        return {"a": _describe(x, xo), "b": _describe(y, yo)}
+    raise ValueError(kind)
+
+
+HANDLERS.update({"values": values_op})
